@@ -560,6 +560,19 @@ def flatten_value_cast_as_varchar(expression: exp.Expression) -> exp.Expression:
     ):
         return exp.JSONExtractScalar(this=expression.this, expression=exp.JSONPath(expressions=[exp.JSONPathRoot()]))
 
+    # snowflake case conversion (upper/lower) turns variant into varchar, see json_extract_cased_as_varchar
+    if (
+        isinstance(expression, (exp.Upper, exp.Lower))
+        and isinstance(expression.this, exp.Column)
+        and expression.this.name.upper() == "VALUE"
+        and (select := expression.find_ancestor(exp.Select))
+        and select.find(exp.Explode)
+    ):
+        expression.set(
+            "this",
+            exp.JSONExtractScalar(this=expression.this.copy(), expression=exp.JSONPath(expressions=[exp.JSONPathRoot()])),
+        )
+
     return expression
 
 
